@@ -21,9 +21,10 @@ VARIABLES m,        \* the map: Comps -> {"absent", "no", "yes"}
           pc, idx,  \* per thread
           snap,     \* per thread: the body being built by a status request
           resps,    \* responses delivered so far: <<thread, index, code, body>>
-          everReady \* history: the map was all-ready at some point
+          everReady, \* history: the map was all-ready at some point
+          probed    \* the probe request (thread 0, after every thread has finished) has been answered
 
-hvars == <<m, pc, idx, snap, resps, everReady>>
+hvars == <<m, pc, idx, snap, resps, everReady, probed>>
 
 Threads == 1..Len(Prog)
 Op(t) == Prog[t][idx[t]]
@@ -32,7 +33,7 @@ Op(t) == Prog[t][idx[t]]
 HInit ==
     /\ m = M0(Pre)
     /\ pc = [t \in Threads |-> "idle"] /\ idx = [t \in Threads |-> 1]
-    /\ snap = [t \in Threads |-> <<>>] /\ resps = {} /\ everReady = TRUE
+    /\ snap = [t \in Threads |-> <<>>] /\ resps = {} /\ everReady = TRUE /\ probed = FALSE
 
 Advance(t) == idx' = [idx EXCEPT ![t] = @ + 1]
 
@@ -42,20 +43,20 @@ Store(t) ==
     /\ m' = [m EXCEPT ![Op(t).c] = IF Op(t).op = "add" THEN "no" ELSE "yes"]
     /\ everReady' = (everReady \/ AllReady(m'))
     /\ Advance(t)
-    /\ UNCHANGED <<pc, snap, resps>>
+    /\ UNCHANGED <<pc, snap, resps, probed>>
 
 \* GetReadyzStatusMap: readyMap.Len() (capacity hint only)
 StatusLen(t) ==
     /\ pc[t] = "idle" /\ idx[t] <= Len(Prog[t]) /\ Op(t).op = "status"
     /\ pc' = [pc EXCEPT ![t] = "iter"]
-    /\ UNCHANGED <<m, idx, snap, resps, everReady>>
+    /\ UNCHANGED <<m, idx, snap, resps, everReady, probed>>
 
 \* readyMap.Iterate: the linearization point of the request
 StatusIter(t) ==
     /\ pc[t] = "iter"
     /\ snap' = [snap EXCEPT ![t] = BodyOf(m)]
     /\ pc' = [pc EXCEPT ![t] = "write"]
-    /\ UNCHANGED <<m, idx, resps, everReady>>
+    /\ UNCHANGED <<m, idx, resps, everReady, probed>>
 
 \* readyzHandler: WriteHeader from the body just built, then encode it
 StatusWrite(t) ==
@@ -63,16 +64,24 @@ StatusWrite(t) ==
     /\ resps' = resps \cup {<<t, idx[t], CodeOf(snap[t]), snap[t]>>}
     /\ pc' = [pc EXCEPT ![t] = "idle"]
     /\ Advance(t)
-    /\ UNCHANGED <<m, snap, everReady>>
+    /\ UNCHANGED <<m, snap, everReady, probed>>
 
 Quiescent == \A t \in Threads : pc[t] = "idle" /\ idx[t] > Len(Prog[t])
 
+\* the probe: one more request once every thread has finished (nothing runs beside it, so it is one step here)
+Probe ==
+    /\ Quiescent /\ ~probed
+    /\ resps' = resps \cup {<<0, 1, CodeOf(BodyOf(m)), BodyOf(m)>>}
+    /\ probed' = TRUE
+    /\ UNCHANGED <<m, pc, idx, snap, everReady>>
+
 HNext == (\E t \in Threads : Store(t) \/ StatusLen(t) \/ StatusIter(t) \/ StatusWrite(t))
-         \/ (Quiescent /\ UNCHANGED hvars)
+         \/ Probe
+         \/ (Quiescent /\ probed /\ UNCHANGED hvars)
 
 HSpec == HInit /\ [][HNext]_hvars
 
 AllConsistent == \A r \in resps : Consistent(r[3], r[4])
 
-Linearizable == Quiescent => resps \in SeqRespsOf(Pre, Prog)
+Linearizable == (Quiescent /\ probed) => resps \in SeqRespsProbedOf(Pre, Prog)
 =============================================================================
